@@ -175,8 +175,14 @@ def zeros( shape, dtype=float, order = 'C'):
     generic implementation of numpy.zeros
     """
 
-    if numpy.isscalar(shape):
+    if numpy.ndim(shape) == 0:
         shape = (shape,)
+    # a tuple of Python ints, whatever the caller passed (a list, an array, NumPy integers):
+    # (D,P) + numpy.array([2,3]) would ADD the shape to D and P
+    shape = tuple(int(n) for n in shape)
+
+    if dtype is None:
+        dtype = float
 
     if isinstance(dtype, (type, str, numpy.dtype)):
         # a dtype in any spelling numpy accepts: float, 'float32', numpy.dtype('complex64')
@@ -206,8 +212,14 @@ def ones( shape, dtype=float, order = 'C'):
     generic implementation of numpy.ones
     """
 
-    if numpy.isscalar(shape):
+    if numpy.ndim(shape) == 0:
         shape = (shape,)
+    # a tuple of Python ints, whatever the caller passed (a list, an array, NumPy integers):
+    # (D,P) + numpy.array([2,3]) would ADD the shape to D and P
+    shape = tuple(int(n) for n in shape)
+
+    if dtype is None:
+        dtype = float
 
     if isinstance(dtype, (type, str, numpy.dtype)):
         # a dtype in any spelling numpy accepts: float, 'float32', numpy.dtype('complex64')
